@@ -411,3 +411,22 @@ plan("C08", "exploration",
      "LMDB MVCC trusted",
      "runtime monitoring: concurrent history recorder with version sentinel, whole-snapshot oracle and abort dump-equality; TSan",
      "DESIGN.md §3 C08")
+
+plan("C16", "exploration",
+     [worker("native", ["fixtures", "C16"], shards=8), explorer("C16") | {"name": "decode"}],
+     ["the golden fixtures were generated once by the reference tree (pinned commit + the fix commits) on a little-endian x86-64 host and verified by the oracles before being committed; they are never regenerated by the check",
+      "the reference decoder is written from the documented layout only (no arroy codec)"],
+     "on-disk format stays readable",
+     "Forward: 7 committed golden fixtures loaded through raw puts must open, read back, pass C01, replay recorded queries (neighbours + distances) and accept an incremental update. Backward: key lattice over index x id boundaries through the public API vs the reference encoding and LMDB order; explorer leg in which every dump must parse under the reference decoder.",
+     "fixed committed reference (fixtures + decoder)",
+     "runtime monitoring against a fixed committed reference: golden-fixture replay + reference decoder over generated databases",
+     "DESIGN.md §3 C16, Appendix A")
+
+plan("C17", "exploration",
+     [worker("native", ["upgrade", "C17"])],
+     ["the v0.4 layout is produced by the harness's own inverse of the documented layout change (key kinds, child kinds, metric name 'angular', pending-updates bitmap)"],
+     "upgrade preserves content",
+     "Cosine databases from explorer histories are inverted into the v0.4 layout, loaded raw, upgraded into a second environment and in place; the result must equal the current-layout original byte for byte (minus version records), open or demand a build iff updates were pending, pass the walkers and exact queries; then 0.5->0.6 must add exactly one version record per index with metadata.",
+     "harness-side layout inversion; LMDB trusted",
+     "runtime monitoring: round-trip differential (invert layout, run the real upgrade, byte-compare dumps) over generated databases",
+     "DESIGN.md §3 C17")
